@@ -5,5 +5,4 @@ From XV Require Import lib.Bytes.
 Definition setdeadline_watcher_unconditional : bool := true.
 
 (* session.go negotiateSession: err = ctx.Err() only under `if err == nil`; a step's error is never replaced *)
-(* not so: err = ctx.Err() outside `if err == nil` *)
-Definition negsession_keeps_step_error : bool := false.
+Definition negsession_keeps_step_error : bool := true.
